@@ -41,7 +41,7 @@ def sum_by_group(inp):
     from pandapipes.pf.internals_toolbox import _sum_by_group
     labels = [0, 1, 2, 7, 99999, 100000, 300000]
     cases, witness = 0, None
-    for n in range(0, 6):
+    for n in range(0, int(inp.get("max_len", 5)) + 1):
         for idx in itertools.product(labels, repeat=n):
             spec = {}
             for k, l in enumerate(idx):
